@@ -49,7 +49,6 @@ pub fn write_code_hex(path: PathBuf, br: &BuildResult) -> Result<(), Error> {
     let output = generate_hex(br)?;
     let mut file_output = File::create(path)?;
     file_output.write_all(output.code.replace("\n", "\r\n").as_bytes())?;
-    file_output.write(b"\r\n")?;
 
     Ok(())
 }
@@ -58,7 +57,6 @@ pub fn write_eeprom_hex(path: PathBuf, br: &BuildResult) -> Result<(), Error> {
     let output = generate_hex(br)?;
     let mut file_output = File::create(path)?;
     file_output.write_all(output.eeprom.replace("\n", "\r\n").as_bytes())?;
-    file_output.write(b"\r\n")?;
 
     Ok(())
 }
